@@ -143,3 +143,162 @@ def gen_acq(tier, envs=("q", "a"), shapes=None, only_try=False, only_blocking=Fa
                     names.append(nm)
                     out.append(txt)
     return "\n".join(out), names
+
+
+# ------------------------------------------------------------------------------------------
+# panics: user code (C11), raw lock faults (C12)
+# ------------------------------------------------------------------------------------------
+def leaf_match(shape, var, what):
+    """rust: match var { 0 => id0, 1 => id1, ... }"""
+    arms = ["%d => %s," % (j, i) for j, i in enumerate(shape.ids())]
+    arms[-1] = "_ => %s," % shape.ids()[-1]
+    return "match %s { %s }" % (var, " ".join(arms))
+
+
+def panic_entry(shape, api, mode, blocking, style, kind, keystyle="owned"):
+    xm, sm = held_masks(shape, mode)
+    held_ok = "w().held_x.get() == %s && w().held_s.get() == %s" % (xm, sm)
+    L = ["w().reset(false);"]
+    L += shape.setup
+    L += pre_stmts(shape)
+    L += shape.build
+    L.append("let orc = %s;" % oracle_try(shape, mode))
+    L.append("let all_free = %s;" % oracle_try(shape, "w"))
+    if kind == "fault":
+        L.append("w().fault_armed.set(true);")
+    elif kind == "user":
+        L.append("w().user_panic_armed.set(true);")
+    elif kind == "evil":
+        # exactly the persistent fault classes of tests/evil_*.rs, at symbolic positions:
+        #   0: lock and unlock panic (evil_mutex / evil_rwlock)   1: try panics (evil_try_*)
+        #   2: every operation panics, plus a second lock whose release panics (evil_unlock_*)
+        n = shape.n()
+        L.append("let ej = any_below(T_EVIL, %d);" % n)
+        L.append("let ec = any_below(T_EVIL | 1, %d);" % (3 if n > 1 else 2))
+        L.append("let evil_id: u8 = %s;" % leaf_match(shape, "ej", "id"))
+        L.append("w().evil_lock[0].set(evil_id);")
+        L.append("w().evil_class[0].set(match ec { 0 => EVIL_LOCK | EVIL_UNLOCK, 1 => EVIL_TRY, _ => 7 });")
+        if n > 1:
+            L.append("if ec == 2 {")
+            L.append("\tlet ej2 = any_below(T_EVIL | 2, %d);" % n)
+            L.append("\teng::assume(ej2 != ej);")
+            L.append("\tw().evil_lock[1].set(%s);" % leaf_match(shape, "ej2", "id"))
+            L.append("\tw().evil_class[1].set(EVIL_UNLOCK);")
+            L.append("}")
+    if style == "guard" or keystyle == "owned":
+        L.append("let k = key();")
+        karg = "k"
+    else:
+        L.append("let mut k = key();")
+        karg = "&mut k"
+    L.append("w().api_begin();")
+    inner = []
+    if style == "guard":
+        if blocking:
+            inner.append("let g = %s;" % unwrap_pois(shape, "coll.%s(k)" % api))
+            inner.append("vreach!(11);")
+            inner.append("vcheck!(%s, M_NOT_ALL_HELD);" % held_ok)
+            inner.append("user_point(1);")
+            inner.append("vreach!(12);")
+            inner.append("drop(g);")
+        else:
+            hdr, okp, poisp, errp = try_match(shape, api)
+            inner.append(hdr)
+            body_ok = ["vreach!(11);", "vcheck!(%s, M_NOT_ALL_HELD);" % held_ok, "user_point(1);", "vreach!(12);", "drop(g);"]
+            inner.append("\t%s {" % okp)
+            inner += ["\t\t" + x for x in body_ok]
+            inner.append("\t}")
+            if poisp:
+                inner.append("\t" + poisp)
+                inner += ["\t\t" + x for x in body_ok]
+                inner.append("\t}")
+            inner.append("\t%s { drop(kb); }" % errp)
+            inner.append("}")
+    else:
+        clos = "|_d| { vreach!(11); vcheck!(%s, M_NOT_HELD_IN_SECTION); user_point(1); vreach!(12); 7u8 }" % held_ok
+        inner.append("let _r = coll.%s(%s, %s);" % (api, karg, clos))
+    L.append("let r = catch_unwind(AssertUnwindSafe(|| {")
+    L += ["\t" + x for x in inner]
+    L.append("}));")
+    L.append("let panicked = r.is_err();")
+    L.append("core::mem::forget(r);")
+    L.append("w().fault_armed.set(false);")
+    L.append("w().user_panic_armed.set(false);")
+    L.append("let fired = w().fault_fired.get();")
+    if kind == "evil":
+        L.append("w().evil_class[0].set(0);")
+        L.append("w().evil_class[1].set(0);")
+        L.append("let evil_mask = bit(evil_id) | (if w().evil_lock[1].get() != NOID { bit(w().evil_lock[1].get()) } else { 0 });")
+    if style == "scoped" and keystyle == "lent":
+        L.append("vcheck!(ThreadKey::get().is_none(), M_KEY_MODEL);")
+        L.append("drop(k);")
+    L.append("vcheck!(key_is_back(), M_KEY_MODEL);")
+    if kind == "user":
+        L.append("vcheck!(w().bad_release.get() == 0, M_BAD_RELEASE);")
+        L.append("vcheck!(!w().held_any(), M_LEAK);")
+        L.append("if panicked {")
+        L.append("\tvreach!(4);")
+        # the locks must be usable again by anyone: re-acquire through the same object
+        if blocking or True:
+            if shape.kind in ("single_m", "single_r"):
+                reacq = "coll.%s(key()).is_ok()" % ("try_lock" if shape.kind == "single_m" else "try_write")
+            elif is_pois(shape):
+                reacq = "match coll.try_lock(key()) { Err(crate::poisonable::TryLockPoisonableError::WouldBlock(_)) => false, _ => true }"
+            else:
+                reacq = "coll.try_lock(key()).is_ok()"
+            L.append("\tif all_free { vcheck!(%s, M_LEAK); }" % reacq)
+            L.append("\tvcheck!(!w().held_any(), M_LEAK);")
+        L.append("}")
+    elif kind == "fault":
+        L.append("vcheck!(panicked == fired, M_NO_PANIC);")
+        L.append("vcheck!(w().bad_release.get() == 0, M_BAD_RELEASE);")
+        L.append("if fired {")
+        L.append("\tvreach!(4);")
+        L.append("\tlet fl = w().faulted_lock.get();")
+        L.append("\tvcheck!((w().held_x.get() | w().held_s.get()) & !bit(fl) == 0, M_LEAK);")
+        # the faulted lock refuses later acquisitions
+        for (i, k, ref) in shape.leaves:
+            if ref.startswith("&") or ref == "raw6":
+                continue
+            tryapi = "try_lock" if k == "M" else "try_write"
+            lockapi = "lock" if k == "M" else "write"
+            L.append("\tif %s == fl {" % i)
+            L.append("\t\tvcheck!(%s.%s(key()).is_err(), M_FAULTED_USABLE);" % (ref, tryapi))
+            L.append("\t\tif w().tab[fl as usize].get() == 0 {")
+            L.append("\t\t\tlet r2 = catch_unwind(AssertUnwindSafe(|| { let g = %s.%s(key()); drop(g); }));" % (ref, lockapi))
+            L.append("\t\t\tvcheck!(r2.is_err(), M_FAULTED_USABLE);")
+            L.append("\t\t\tcore::mem::forget(r2);")
+            L.append("\t\t}")
+            L.append("\t}")
+        L.append("} else {")
+        L.append("\tvcheck!(!w().held_any(), M_HELD_AFTER_ERR);")
+        L.append("}")
+    else:
+        L.append("vcheck!(panicked == fired, M_NO_PANIC);")
+        L.append("vcheck!(w().bad_release.get() == 0, M_BAD_RELEASE);")
+        L.append("vcheck!((w().held_x.get() | w().held_s.get()) & !evil_mask == 0, M_LEAK);")
+        L.append("if fired { vreach!(4); }")
+    L.append("vreach!(3);")
+    nm = "%s__%s__%s%s" % (shape.name, api, kind, "_lent" if (style == "scoped" and keystyle == "lent") else "")
+    return nm, fn_wrap(nm, L)
+
+
+def gen_panic(tier, kind, kinds=None, fixed_seed=None):
+    from . import gen
+    out = [HEADER]
+    names = []
+    gen.FIXED_PICKS[0] = fixed_seed
+    try:
+        shapes = all_shapes(tier)
+    finally:
+        gen.FIXED_PICKS[0] = None
+    for sh in shapes:
+        if kinds is not None and not kinds(sh):
+            continue
+        for (api, mode, blocking, style) in apis_for(sh):
+            ks = ["owned"] + (["lent"] if style == "scoped" else [])
+            for keystyle in ks:
+                nm, txt = panic_entry(sh, api, mode, blocking, style, kind, keystyle)
+                names.append(nm)
+                out.append(txt)
+    return "\n".join(out), names
